@@ -18,4 +18,6 @@ pub use tests::gen_structure;
 #[derive(Clone, Copy, Debug, PartialEq, Eq, PartialOrd, Ord)]
 pub enum Version {
     V1,
+    /// Adds the attribute-ID counter to the access structure.
+    V2,
 }
